@@ -3,6 +3,7 @@ from pyvc.native import *      # noqa: F401,F403
 
 CONTEXT_FILE = 'frappy/protocol/dispatcher.py'
 SOURCES = ['frappy/protocol/dispatcher.py', 'frappy/errors.py']
+UFS = {'module_of': (['val', 'val'], 'val', 'Module')}
 GHOSTS = ['sent']
 ASSUMPTIONS = [
     'A3/A6/A7 as for the other properties',
@@ -13,9 +14,12 @@ ASSUMPTIONS = [
 
 CLASSES = {
     'Conn': dict(fields={}),
-    'SecNode': dict(fields={'modules': 'dict', 'export': 'list:str'}),
+    'Parameter': dict(fields={'export': 'any', 'name': 'str', 'readerror': 'any', 'timestamp': 'any'}),
+    'Module': dict(fields={'name': 'str', 'accessiblename2attr': 'dict:str', 'parameters': 'dict:Parameter', 'accessibles': 'dict'},
+                   elem_inv={'accessiblename2attr': "v != ''"}),      # attribute names are not empty
+    'SecNode': dict(fields={'modules': 'dict:Module', 'export': 'list:str'}),
     'Dispatcher': dict(fields={'_connections': 'list:Conn', '_active_connections': 'set[obj]:Conn', '_subscriptions': 'dict:set[obj]:Conn',
-                               'secnode': 'SecNode', 'log': 'any'}),
+                               'secnode': 'SecNode', 'log': 'any'}, inv=['inv(self.secnode)']),
 }
 
 
@@ -74,6 +78,20 @@ def RestAll(subs1, subs0, done):
     return forall_str(lambda e: implies(e not in done, Untouched(subs1, subs0, e)))
 
 
+def WireParameter(m, name):
+    """name is the wire name of a parameter of module m"""
+    return name in m.accessiblename2attr and m.accessiblename2attr[name] in m.parameters
+
+
+def DescribedParameterSpec(d, specifier):
+    """the specifier names an exported module, or module:<wire name of one of its parameters>"""
+    if ':' not in specifier:
+        return specifier in d.secnode.export
+    mod = specifier.split(':', 1)[0]
+    return mod in d.secnode.export and module_of(d.secnode, mod) is not None \
+        and WireParameter(module_of(d.secnode, mod), specifier.split(':', 1)[1])
+
+
 def InnerOf(subs, e):
     return subs[e] if e in subs else set()
 
@@ -94,10 +112,10 @@ CONTRACTS = [
          ghost_modifies=['sent'], ensures={'logged': 'sent == old(sent) + [(self, data)]'}, raises='never'),
     dict(key='Dispatcher.subscribe', file='frappy/protocol/dispatcher.py', func='Dispatcher.subscribe', serves=['C08'],
          self_type='Dispatcher', params={'conn': 'Conn', 'eventname': 'str'}, requires=['inv(self)'], modifies=['_subscriptions'],
-         ensures={'added': 'Subscribed(self, eventname, conn)',
+         ensures={'inv': 'inv(self)',
+                  'added': 'Subscribed(self, eventname, conn)',
                   'other_conns': 'dict_same_except(self._subscriptions[eventname], old(InnerOf(self._subscriptions, eventname)), conn)',
-                  'other_events': 'OtherEventsUntouched(self._subscriptions, old(self._subscriptions), eventname)',
-                  'inv': 'inv(self)'},
+                  'other_events': 'OtherEventsUntouched(self._subscriptions, old(self._subscriptions), eventname)'},
          raises='never'),
     dict(key='Dispatcher.broadcast_event', file='frappy/protocol/dispatcher.py', func='Dispatcher.broadcast_event', serves=['C08'],
          self_type='Dispatcher', params={'msg': 'tuple', 'reallyall': 'bool'},
@@ -120,10 +138,32 @@ CONTRACTS = [
                               ' and dict_same_except(self._active_connections, old(self._active_connections), conn)',
                   'inv': 'inv(self)'},
          raises='never'),
+    # ---- activation of ONE item: only described modules / parameters can be subscribed; a refused request changes nothing
+    dict(key='SecNode.get_module', file=None, func=None, signature='self, modulename', serves=[], trusted=True, requires=[],
+         ensures={'known': 'same_object(result, module_of(self, modulename)) and result is not None and inv(result)'},
+         raises={'cls': 'issubclass(exc, NoSuchModuleError)'}, result_type='Module'),
+    dict(key='make_update', file=None, func=None, signature='modulename, pobj', serves=[], trusted=True, requires=['pobj is not None'],
+         ensures={'triple': 'is_tuple(result) and len(result) == 3'}, raises='never', result_kind='tuple'),
+    dict(key='Dispatcher.handle_activate', file='frappy/protocol/dispatcher.py', func='Dispatcher.handle_activate', serves=['C06', 'C08'],
+         self_type='Dispatcher', params={'conn': 'Conn', 'specifier': 'str'},
+         requires=['inv(self)', "specifier != ''",
+                   # the node's bookkeeping: exported names are modules; the module table is the view module_of
+                   'forall_str(lambda n: implies(n in self.secnode.modules, same_object(self.secnode.modules[n], module_of(self.secnode, n))))',
+                   'all(n in self.secnode.modules for n in self.secnode.export)'],
+         modifies=['_subscriptions'], ghost_modifies=['sent'], check_frame=False,
+         ensures={'described': 'DescribedParameterSpec(self, specifier)',
+                  'subscribed': 'Subscribed(self, specifier, conn)',
+                  'other_events': 'OtherEventsUntouched(self._subscriptions, old(self._subscriptions), specifier)',
+                  'global_unchanged': "unchanged('_active_connections')"},
+         raises={'cls': 'issubclass(exc, ProtocolError) or issubclass(exc, NoSuchModuleError) or issubclass(exc, NoSuchParameterError)',
+                 'nothing_subscribed': "unchanged('_subscriptions') and unchanged('_active_connections')"},
+         reach={'activated': 'Subscribed(self, specifier, conn)'}),
     dict(key='Dispatcher.set_all_log_levels', file=None, func=None, signature='self, conn, level', serves=[], trusted=True,
          requires=[], ensures={}, raises='never'),
 ]
 LOOPS = {
+    'Dispatcher.handle_activate#0': dict(header='modules', ghost=['sent'], invariant={'inv': 'inv(self)'}),
+    'Dispatcher.handle_activate#1': dict(header='moduleobj.accessibles.values()', ghost=['sent'], invariant={'inv': 'inv(self)'}),
     'Dispatcher.broadcast_event#0': dict(header='listeners', ghost=['sent'], invariant={'inv': 'inv(self)'}),
     'Dispatcher.unsubscribe#0': dict(header='self._subscriptions.items()', modifies=['_subscriptions'],
         invariant={'inv': 'inv(self)',
